@@ -124,6 +124,7 @@ type State struct {
 	heads  map[string]*State  // state at the head of the current iteration, per loop
 	facts  map[string]bool    // atoms assumed on this path (exact term text -> truth value)
 	eqs    map[string]string  // term -> integer literal it is known to equal
+	shared []*Cell            // variables written by goroutines started on this path
 }
 
 func (s *State) top() *Frame { return s.frames[len(s.frames)-1] }
@@ -139,6 +140,7 @@ func (s *State) clone() *State {
 		callNo: make(map[string]int, len(s.callNo)),
 		extra:  s.extra,
 		heads:  s.heads,
+		shared: s.shared,
 		facts:  make(map[string]bool, len(s.facts)),
 		eqs:    make(map[string]string, len(s.eqs)),
 	}
